@@ -205,7 +205,12 @@ func expandSchema(target Schema, parentRefs []string, resolver *schemaLoader, ba
 	verifStep("expand", parentRefs, target.Ref.String(), basePath)
 	if target.Ref.String() == "" && target.Ref.IsRoot() {
 		newRef := normalizeRef(&target.Ref, basePath)
-		target.Ref = *newRef
+		if resolver.options.AbsoluteCircularRef {
+			target.Ref = *newRef
+		} else {
+			// like any other $ref left in place: written relative to the root document
+			target.Ref = denormalizeRef(newRef, resolver.context.basePath, resolver.context.rootID)
+		}
 		return &target, nil
 	}
 
